@@ -155,3 +155,134 @@ var div1Reviewed = map[string]string{
 }
 
 var _ = strings.Join
+
+// ---------- NIL-1 ----------
+
+func init() {
+	register(&Rule{
+		ID: "NIL-1",
+		Doc: "a list that can come back nil is not indexed blindly (contradiction rule): a function of the geometry or routing packages that returns a slice and has an explicit `return nil` next to non-nil returns says \"no result\" that way; " +
+			"every caller that indexes the result (or takes an element relative to its length) must first test it for nil or test its length - as the other callers of the same functions do. An unguarded index panics with `index out of range [-1]` on exactly the inputs for which there is no result",
+		Floor: 1,
+		Ctl:   []string{"internal__geom__nil1.go.txt"},
+		Run:   runNil1,
+	})
+}
+
+func runNil1(m *Model, r *RuleResult) {
+	inScope := func(f *ssa.Function) bool {
+		sp := shortPkg(pkgPathOf(f))
+		return sp == geomPkg || sp == "internal/phase5"
+	}
+	// functions that may return nil explicitly
+	mayNil := map[*ssa.Function]bool{}
+	for _, f := range m.Src {
+		if !inScope(f) || len(f.Blocks) == 0 || f.Signature.Results().Len() != 1 {
+			continue
+		}
+		if _, ok := f.Signature.Results().At(0).Type().Underlying().(*types.Slice); !ok {
+			continue
+		}
+		nilRet, other := false, false
+		eachInstr(f, func(in ssa.Instruction) {
+			if ret, ok := in.(*ssa.Return); ok && len(ret.Results) == 1 {
+				if c, ok := ret.Results[0].(*ssa.Const); ok && c.IsNil() {
+					nilRet = true
+				} else {
+					other = true
+				}
+			}
+		})
+		if nilRet && other {
+			mayNil[f] = true
+		}
+	}
+	var fs []*ssa.Function
+	for _, f := range m.Src {
+		if inScope(f) && len(f.Blocks) > 0 {
+			fs = append(fs, f)
+		}
+	}
+	sort.Slice(fs, func(i, j int) bool { return funcKey(fs[i]) < funcKey(fs[j]) })
+	for _, f := range fs {
+		n := map[string]int{}
+		eachInstr(f, func(in ssa.Instruction) {
+			call, ok := in.(*ssa.Call)
+			if !ok {
+				return
+			}
+			callee := call.Call.StaticCallee()
+			if callee == nil || !mayNil[callee] {
+				return
+			}
+			// values that are the result or carry it on (phi, append with the result as base, re-slicing)
+			vals := map[ssa.Value]bool{call: true}
+			work := []ssa.Value{call}
+			for len(work) > 0 {
+				v := work[0]
+				work = work[1:]
+				if v.Referrers() == nil {
+					continue
+				}
+				for _, ref := range *v.Referrers() {
+					switch x := ref.(type) {
+					case *ssa.Phi:
+						if !vals[x] {
+							vals[x] = true
+							work = append(work, x)
+						}
+					}
+				}
+			}
+			// index uses and guards
+			var idx []ssa.Instruction
+			for v := range vals {
+				if v.Referrers() == nil {
+					continue
+				}
+				for _, ref := range *v.Referrers() {
+					if ia, ok := ref.(*ssa.IndexAddr); ok && ia.X == v {
+						idx = append(idx, ia)
+					}
+				}
+			}
+			if len(idx) == 0 {
+				return // only ranged over, appended to, returned or tested
+			}
+			n[callee.Name()]++
+			key := fmt.Sprintf("nil-result-indexed:%s<-%s#%d", funcKey(f), callee.Name(), n[callee.Name()])
+			ctl := m.FuncIsPosctl(f)
+			var bad []string
+			for _, use := range idx {
+				guarded := false
+				for d := use.Block(); d != nil && !guarded; d = d.Idom() {
+					id := d.Idom()
+					if id == nil {
+						break
+					}
+					iff, ok := id.Instrs[len(id.Instrs)-1].(*ssa.If)
+					if !ok {
+						continue
+					}
+					ment := map[ssa.Value]bool{}
+					mentioned(iff.Cond, 0, ment)
+					for v := range vals {
+						if ment[v] {
+							guarded = true
+						}
+					}
+				}
+				// an index inside a loop bounded by the length of the same value is guarded by that bound
+				if !guarded {
+					bad = append(bad, m.Pos(use.Pos()))
+				}
+			}
+			if len(bad) == 0 {
+				r.add(Obligation{Key: key, Pos: m.Pos(call.Pos()), Desc: "the result of " + callee.Name() + " (nil = no result) is tested before it is indexed", Verdict: "holds", Control: ctl})
+			} else {
+				r.add(Obligation{Key: key, Pos: m.Pos(call.Pos()), Desc: "the result of " + callee.Name() + " (nil = no result) must be tested before it is indexed", Verdict: "violation",
+					Detail: "indexed at " + strings.Join(uniq(bad), ", ") + " without a test of the result or of its length on the way: when " + callee.Name() + " has no result the index is out of range and Layout panics", Control: ctl})
+			}
+		})
+	}
+}
